@@ -1,5 +1,6 @@
 import PnVerif.Lemmas.Encode
 import PnVerif.Lemmas.PostPass
+import PnVerif.Lemmas.Accept
 /-
   C04 — any specification-valid classic file is read back exactly.
   Model: Model/Header.lean; independent decoder: Spec/SpecDecode.lean.
@@ -104,6 +105,28 @@ theorem open_reads_back (c : Nat) (b rest : Bytes) (d : Schema) (hdr : Hdr) (inf
     obtain ⟨rfl, rfl⟩ := ho
     exact ⟨rfl, postPass_lens d i hp⟩
 
+/-- C04, the main statement.  ANY byte string that is a specification-valid classic file —
+    accepted by the independent BNF decoder, within the library's limits, with a layout the
+    specification allows (`Schema.LayoutValid`: valid dimension references, variables ≤ 2^31-4 bytes,
+    begins after the header and increasing in definition order without overlap, gaps anywhere,
+    any vsize) — is opened successfully by ncmpio_hdr_get_NC for EVERY read chunk size, and what the
+    library then holds is exactly the specification's schema, the specified variable lengths and
+    the encoded header size. -/
+theorem valid_file_opens (c : Nat) (b rest : Bytes) (d : Schema)
+    (h : Spec.header b = some (d, rest)) (hl : Limits d) (hv : d.LayoutValid (Hdr.len d)) :
+    ∃ info, decodeChunked c b = .ok (d, info) ∧ info.lens = d.vars.map d.varLen ∧ info.xsz = Hdr.len d := by
+  obtain ⟨info, hp⟩ := postPass_ok d hv
+  refine ⟨info, ?_, postPass_lens d info hp⟩
+  rw [decodeChunked_specvalid c b rest d h hl, hp]
+
+/-- the same for the files the specification encoder of the harness (and the library's own writer)
+    produces, with arbitrary bytes after the header -/
+theorem valid_encoding_opens (c : Nat) (d : Schema) (rest : Bytes) (he : Encodable d) (hl : Limits d)
+    (hv : d.LayoutValid (Hdr.len d)) :
+    ∃ info, decodeChunked c (encodeRaw d ++ rest) = .ok (d, info) ∧ info.lens = d.vars.map d.varLen :=
+  let ⟨info, h1, h2, _⟩ := valid_file_opens c _ rest d (header_put d rest he) hl hv
+  ⟨info, h1, h2⟩
+
 /-! non-vacuity: a CDF-1 header with a gap before the first variable, a stale vsize, a saturated
     vsize, a zero-length attribute and a record variable meets every hypothesis above -/
 def exampleHdr : Schema :=
@@ -125,8 +148,17 @@ example : Limits exampleHdr := by
 example : (postPass exampleHdr).toOption.map (fun i => (i.xsz, i.lens, i.recsize, i.beginVar, i.beginRec)) =
     some (168, [12, 4], 3, 400, 512) := by decide
 
+example : exampleHdr.LayoutValid (Hdr.len exampleHdr) := by
+  refine ⟨?_, ?_, 412, by rfl, 516, by rfl⟩
+  · intro v hv
+    simp only [exampleHdr, List.mem_cons, List.mem_nil_iff, or_false] at hv
+    rcases hv with rfl | rfl <;> simp [exampleHdr, Schema.isRecDim]
+  · intro v hv
+    simp only [exampleHdr, List.mem_cons, List.mem_nil_iff, or_false] at hv
+    rcases hv with rfl | rfl <;> simp [exampleHdr, Schema.nelems, Schema.dimFactor, NcType.size]
+
 def obligations : List String := [
   "encode_length", "chunk_independent", "specDecode_encode", "decode_specvalid", "decodeChunked_specvalid",
-  "decode_encode", "open_reads_back"
+  "decode_encode", "open_reads_back", "valid_file_opens", "valid_encoding_opens"
 ]
 end PnVerif.Props.C04
